@@ -203,7 +203,7 @@ def fill_labels(facts, f, roles, api):
             elif rt[0] == 'const':
                 nm = rt[2]
                 if nm is not None and '::' in str(nm):
-                    d['labels'].add('c:' + str(nm).rsplit('::', 1)[1].replace('{}', ''))
+                    d['labels'].add('c:' + str(nm).rsplit('::', 1)[1].replace('{}', '').rstrip('}'))
                 elif rt[1] is None and nm is not None and re.fullmatch(r'[A-Z]\w*', str(nm)) and _array_len_component(f, roles, str(nm)) is not None:
                     # a const generic that is the length of an array among the resources (`[IoSlice; N]`): the same value
                     # as `.len()` of that array
